@@ -106,3 +106,4 @@ def build(eng, tier):
     _build_C03(eng, tier)
     from . import serde_targets
     serde_targets.add_value_info_target(eng)
+    serde_targets.add_tensor_shape_target(eng)
